@@ -3,7 +3,7 @@ CONSTANTS
   N = 3
   InitUp = 2
   MaxFaults = 3
-  FaultKinds = {"add", "remove", "unlist", "stop", "start", "restart", "droppooled", "dropctrl", "dropall"}
+  FaultKinds = {"add", "remove", "unlist", "stop", "start", "restart", "droppooled", "dropctrl", "dropall", "mute"}
   Hosts = {"h1", "h2", "h3"}
   FirstHost = "h1"
   TimerStoppedOnClose = FALSE
